@@ -38,6 +38,7 @@ type Encoder struct {
 	c             *Ctx
 	sorts         map[string]*Sort
 	deepPre       bool
+	packets       map[*Term][2]*SVal // gopacket.NewPacket results: data and first layer type
 	symMu         sync.Mutex
 	tracked       []trackedObj // objects allocated by the function under verification (see restoreFrame)
 	assumptions   []*Term
@@ -1365,6 +1366,25 @@ func (e *Encoder) mapUpdate(fr *frame, x *ssa.MapUpdate) {
 	if !ok || isAggregate(mt.Elem()) && kindOf(mt.Elem()) != KStruct {
 		e.subsetWarn("map update with unmodelled key/value type " + mt.String())
 		return
+	}
+	if e.pure == 0 && len(e.inlineStack) == 0 && e.contract != nil {
+		// "at mapupdate assert ...": arg(0) the map, arg(1) the key, arg(2) the value
+		for _, cl := range e.contract.AtCalls {
+			if cl.Callee != "mapupdate" || (cl.Slow && !thoroughTier) {
+				continue
+			}
+			env := e.contractEnv(fr, e.contract, nil, e.cur, e.entry)
+			env.callArgs = []*SVal{m, e.val(fr, x.Key), e.val(fr, x.Value)}
+			t := env.trClause(cl)
+			tag := cl.Tag
+			if tag == "" {
+				tag = "at.mapupdate"
+			}
+			if o := e.oblige("atcall", tag, "at the map update: "+cl.Text, t, x.Pos()); o != nil {
+				o.Props = propsOfTag(cl.Tag, e.contract.Props)
+			}
+			e.assume(t)
+		}
 	}
 	k := e.mapKeyTerm(e.val(fr, x.Key), mt.Key())
 	has := e.get(e.cur, cls+"#has", Arr(RefS, Arr(ks, BoolS)))
